@@ -3482,6 +3482,10 @@ fn validate_extension_declarations(
     extensions: Vec<ExpirationExtension2>,
 ) -> Result<ExtendExpirationsInner, ActorError> {
     let mut claim_space_by_sector = BTreeMap::<SectorNumber, (u64, u64)>::new();
+    // A claim may be declared (maintained or dropped) at most once per message. A repeated claim
+    // would otherwise be counted twice towards its sector's verified space and could stand in
+    // for a different claim of the sector that is neither checked nor dropped.
+    let mut declared_claims = BTreeSet::<ext::verifreg::ClaimID>::new();
 
     for decl in &extensions {
         let policy = rt.policy();
@@ -3498,6 +3502,16 @@ fn validate_extension_declarations(
             let mut drop_claims = sc.drop_claims.clone();
             let mut all_claim_ids = sc.maintain_claims.clone();
             all_claim_ids.append(&mut drop_claims);
+            for claim_id in &all_claim_ids {
+                if !declared_claims.insert(*claim_id) {
+                    return Err(actor_error!(
+                        illegal_argument,
+                        "claim {} declared more than once for sector {}",
+                        claim_id,
+                        sc.sector_number
+                    ));
+                }
+            }
             let claims = get_claims(rt, &all_claim_ids)
                 .with_context(|| format!("failed to get claims for sector {}", sc.sector_number))?;
             let first_drop = sc.maintain_claims.len();
